@@ -6,6 +6,21 @@ EXPECT = {"c09_close_consumes": 2, "c01_finalize_consumes": 2, "c07_shared_views
 _CACHE = {}
 
 
+def _prune(tdir):
+    """a scratch copy of the crate lives at a fresh path: cargo keys its artifacts by path, so they are never reused --
+    remove them (the dependencies stay warm)"""
+    import glob
+    for pat in ("debug/deps/*jubako-*", "debug/deps/*jbkwitness-*", "debug/.fingerprint/jubako-*", "debug/.fingerprint/jbkwitness-*", "debug/incremental"):
+        for p in glob.glob(os.path.join(tdir, pat)):
+            if os.path.isdir(p):
+                shutil.rmtree(p, ignore_errors=True)
+            else:
+                try:
+                    os.remove(p)
+                except OSError:
+                    pass
+
+
 def run(names, repo="/repo"):
     """[(name, ok, detail)] — every doc-test of the named witness items must pass and their number must be
     the expected one (a witness that silently disappears is a failure)"""
@@ -20,10 +35,13 @@ def run(names, repo="/repo"):
                 f.write('[package]\nname = "jbkwitness"\nversion = "0.1.0"\nedition = "2021"\n\n[workspace]\n\n[lib]\npath = "src/lib.rs"\n\n[dependencies]\n'
                         'jubako = { path = "%s", default-features = false, features = ["zstd"] }\n' % repo)
             shutil.copy(os.path.join(repo, "Cargo.lock"), os.path.join(W, "Cargo.lock"))
-            env = dict(os.environ, CARGO_NET_OFFLINE="true", CARGO_TARGET_DIR=os.path.join(cache, "target", "witness"))
+            tdir = os.path.join(cache, "target", "witness")
+            env = dict(os.environ, CARGO_NET_OFFLINE="true", CARGO_TARGET_DIR=tdir, CARGO_INCREMENTAL="0")
             r = subprocess.run(["cargo", "+nightly", "test", "--doc", "--offline", "--", "--test-threads", "8"], cwd=W, env=env,
                                stdout=subprocess.PIPE, stderr=subprocess.STDOUT, text=True)
             _CACHE[key] = r.stdout
+            if os.path.realpath(repo) != "/repo":
+                _prune(tdir)
     out = _CACHE[key]
     res = []
     for n in names:
